@@ -606,7 +606,7 @@ func (t *vC19) merge64(ids []uint32, scores []float64) {
 func init() {
 	vRegister(&vCheck{
 		ID: "C19", Level: "exploration", Engine: "domainmc",
-		Rule:        "Exhaustive lattice: ALL result lists of length 0..3 (quick) / 0..4 (thorough) over ids {1,2,3} x scores {-1, 0, 1, 2.5, +Inf, -Inf, NaN}: vector and text aggregation x {sum,max,mean} (each id once, value, best-first order for NaN-free inputs, independence of EVERY permutation of the input), LimitResults for k in -2..7; structured long lists (n distinct ids for every n in 1..130 and 200/257/300/513, with repeats of early / middle / late ids appended, prepended or inserted, plus reversed and rotated orders); Autocut/AutocutResults for cutoff in -2..6 on EVERY score list of length 0..5 over the score alphabet (no panic, prefix, identity when disabled); fusion on ALL pairs of the 343 score maps over ids {1,2,3} x 6 scores (negative, zero, ties included) x {weighted sum (1,1),(0.3,0.7),(0,1), default, RRF K in {1,60}, max, min} (key set, values, inputs unchanged; RRF ties: any consistent ranking, origin 0 or 1); mergeResults/sortResultsByScore on all NaN-free lists of length 0..4. Non-trivial = distinct inputs with a repeated id (aggregate/merge), an actual truncation (limit/autocut), or two non-empty maps (fusion).",
+		Rule:        "Exhaustive lattice: ALL result lists of length 0..3 (quick) / 0..4 (thorough) over ids {1,2,3} x scores {-1, 0, 1, 2.5, +Inf, -Inf, NaN}: vector and text aggregation x {sum,max,mean} (each id once, value, best-first order for NaN-free inputs, independence of EVERY permutation of the input), LimitResults for k in -2..7; structured long lists (n distinct ids for every n in 1..130 and 200/257/300/513, with repeats of early / middle / late ids appended, prepended or inserted, plus reversed and rotated orders); Autocut/AutocutResults for cutoff in -2..6 on EVERY score list of length 0..5 over the score alphabet (no panic, prefix, identity when disabled); fusion on ALL pairs of the 343 score maps over ids {1,2,3} x 6 scores (negative, zero, ties included) x {weighted sum (1,1),(0.3,0.7),(0,1), default, RRF K in {1,60}, max, min} (key set, values, inputs unchanged; RRF ties: any consistent ranking, origin 0 or 1); mergeResults/sortResultsByScore on all NaN-free lists of length 0..4. Non-trivial = distinct inputs with a repeated id (aggregate/merge), an actual truncation (limit/autocut), or two non-empty maps (fusion). Fusion: whenever a side has no scores it is passed as an empty map and as a nil map (all combinations): no panic, an accepted answer.",
 		Assumptions: []string{"NaN propagation in aggregation is implementation-defined and not judged", "float tolerance 1e-5 relative"},
 		Shards: func(tier string) []vShard {
 			var sh []vShard
